@@ -114,7 +114,9 @@ def build_indep_package(d, names, grid, filt_names, wavs, version=1, zero_cells=
     write_conf(d, version=version)
     if version == 2:
         from . import pkgworld as pw
-        pw.cube_object(list(names), [0.5, 60.0], None, lambda m, a, w: 1.0 + m + w, lambda m, a, w: 0.1, 'desc').write(os.path.join(d, 'flux.fits'))
+        # the cube holds the same fluxes at the band wavelengths, so that a filter may also be given by its WAVELENGTH
+        pw.cube_object(list(names), list(wavs), None, lambda m, a, w: (0.0 if (m, w) in zero_cells else 10.0 ** (grid[m][w] / 4.0)),
+                       lambda m, a, w: 0.1, 'desc').write(os.path.join(d, 'flux.fits'))
     for j, fn in enumerate(filt_names):
         c = ConvolvedFluxes()
         c.central_wavelength = wavs[j] * u.micron
